@@ -4,7 +4,7 @@ from .. import simprop
 ID = "C05"
 FAMILY = "C05"
 VARIANTS = ("asan",)
-BUDGET = {"quick": dict(examples=16000, seconds=60), "thorough": dict(examples=400000, seconds=540)}
+BUDGET = {"quick": dict(examples=80000, seconds=55), "thorough": dict(examples=2000000, seconds=540)}
 NONTRIVIAL = {"resource-contended", "resource-preempted"}
 RULE = ("Hypothesis-generated scenarios (profile 'mutex' 75%, 'mixed' 25%): 2-6 processes running acquire / hold 0|1 / "
         "release / immediate re-acquire / preempt scripts on 1-3 resources with interrupts, timers, stops and ends "
